@@ -92,6 +92,15 @@ Theorem dl_canceller_called_iff_input_pending : forall f1 f2 ce s i,
 Proof. exact cancel_input_log. Qed.
 Print Assumptions dl_canceller_called_iff_input_pending.
 
+(** in particular an input that has already fired ([called]) but has not delivered its result — its chain is suspended
+    on a pending inner Deferred — is cancelled like any other undelivered input (the cancel is forwarded to the inner
+    Deferred): what decides is "delivered", not [called] *)
+Theorem dl_cancel_reaches_called_but_undelivered_inputs : forall f1 f2 ce s i,
+  called (get i s) = true -> res (get i s) = None ->
+  exists l, log (cancel_input (dl_cb f1 f2 ce) i s) = l ++ ECancel i :: log s.
+Proof. intros f1 f2 ce s i _ H. exact (proj1 (cancel_input_log f1 f2 ce s i) H). Qed.
+Print Assumptions dl_cancel_reaches_called_but_undelivered_inputs.
+
 (** ---- race ---- *)
 
 (** the result Deferred of race fires at most once; neither of the two unguarded firings in the code
@@ -159,13 +168,13 @@ Print Assumptions race_cancel_cancels_inputs_and_fires.
 (** a non-trivial race: input 1 succeeds first; input 0 (pending) is cancelled and fails, input 2's canceller
     fires it with a value, which is ignored *)
 Example nontrivial_race :
-  let s := run KRace [(CNothing, None); (CNothing, None); (CSucceed 5, None)] [Fire 1 (Ok (VInt 11))] in
+  let s := run KRace [(CNothing, None, false); (CNothing, None, true); (CSucceed 5, None, false)] [Fire 1 (Ok (VInt 11))] in
   agg s = Some (AWin 1 (VInt 11)) /\ rev (cancels (log s)) = [0; 2] /\ rev (idx s) = [1; 0; 2].
 Proof. vm_compute. repeat split. Qed.
 
 (** a non-trivial schedule: three inputs, the middle one fired before construction, fired in the order 2, 0 *)
 Example nontrivial_schedule :
-  let s := run (KList false false true) [(CNothing, None); (CNothing, Some (Fail (EUser 1))); (CNothing, None)]
+  let s := run (KList false false true) [(CNothing, None, true); (CNothing, Some (Fail (EUser 1)), false); (CNothing, None, false)]
                [Fire 2 (Ok (VInt 12)); Fire 0 (Ok (VInt 10))] in
   agg s = Some (AList [Some (Ok (VInt 10)); Some (Fail (EUser 1)); Some (Ok (VInt 12))])
   /\ rev (idx s) = [1; 2; 0] /\ res (get 1 s) = Some (Ok VNone).
